@@ -46,7 +46,11 @@ def run_case(exe, rundir, case, timeout=60, keep=False):
     args = [exe, stub] + case.get("args", ["-AMPL"]) + list(case.get("opts", []))
     t0 = time.time()
     try:
-        p = subprocess.run(args, capture_output=True, timeout=timeout, env=env, cwd=d)
+        pre = None
+        if case.get("ignore_signals"):      # started with SIGINT / SIGTERM ignored (as a shell's background job is)
+            import signal as _sg
+            pre = lambda: (_sg.signal(_sg.SIGINT, _sg.SIG_IGN), _sg.signal(_sg.SIGTERM, _sg.SIG_IGN))
+        p = subprocess.run(args, capture_output=True, timeout=timeout, env=env, cwd=d, preexec_fn=pre)
         rc, so, se = p.returncode, p.stdout.decode("latin-1"), p.stderr.decode("latin-1")
         hang = False
     except subprocess.TimeoutExpired:
